@@ -6,6 +6,10 @@ TECH = "machine-checked proof in Coq 8.16 of a hand-written executable model + c
 NOTE_COMMON = ("Trusted: Coq 8.16.1 kernel+VM (no native_compute), ExtrOcamlBasic extraction, OCaml glue (oracle/*.ml), Go harness + verif-tagged hooks, "
                "python driver. Modelled, not verified: the Go code; the per-run correspondence check is the tie. ")
 P = {
+ "C02": ("Pager.v: an 18-clause invariant of the page-level transaction system is proved inductive over every step (reader begin/end, writer begin with any admissible release, "
+         "frees, allocations, commit, rollback) for unbounded histories; corollaries: pages of a version an open reader views are never written and never reusable. Spec.v: calls through a "
+         "read transaction change nothing. Tie: every reader is re-dumped after every writer event and compared with the extracted Spec state of its begin.",
+         "Atomicity of the critical sections under the real Go scheduler (metalock/mmaplock) is runtime behaviour: exercised, not proved. Known finding D5 (failed final sync) is in C08's domain.", "DESIGN.md §8 C02"),
  "C04": ("Theorems about the reference model Spec.v (errors change nothing, read-your-own-writes at any depth, ordered-map laws) hold for all programs and states; "
          "every API result and dump of the implementation is compared with the extracted Spec on generated histories, so a deviation is a concrete failing program.",
          "Root bucket used only through Tx methods; oversized bucket names and MoveBucket into the moved bucket's own subtree (D4) are outside generation.", "DESIGN.md §8 C04"),
@@ -13,12 +17,19 @@ P = {
          "the repaired prev/Last behaviour vs the pinned one on concrete trees, and enumeration laws of the specification; the model is compared call by call with the real cursor on the tree "
          "the cursor actually walks (VerifDumpTree), and the specification is evaluated on every call sequence.",
          "Refinement theorem for trees without emptied leaves is not yet proved (monitored: committed trees have none); every call runs under a 3 s deadline.", "DESIGN.md §8 C05"),
+ "C06": ("Pager.v invariant (inductive, all histories): every page a commit writes is outside the newest committed version and outside every open reader's version; the meta slot alternates. "
+         "Tie: the extracted pstep is replayed on the real freelist events (guards monitored, free/pending/version/written sets compared) and every real WriteAt is intersected with "
+         "decoder-computed page sets of all visible versions.",
+         "Domain: files produced by Open + histories (not backup copies / reverted files). Failed commits are covered by C08.", "DESIGN.md §8 C06"),
  "C07": ("The accounting decision procedure Layout.accounted is proved sound for every decoded view (yes => ids in [2,mark) are partitioned into reachable-once / freelist page / free-once); "
          "it is evaluated by the extracted independent reader on the file bytes after every commit of generated histories, together with key order, element bounds, file length and Tx.Check.",
          "Decoder fuel 200 levels of nesting/depth; images are the page-cache view of the file.", "DESIGN.md §8 C07"),
  "C09": ("Coq theorems (closed under the global context) about an executable model of internal/freelist for all states and ids without bound; the model is tied to the Go code on every run by "
          "differential execution against both backends, and the property's decision procedures are evaluated on the implementation's own before/after states.",
          "hashmap span choice and the reader set are inputs of the model.", "DESIGN.md §8 C09"),
+ "C10": ("Pager.v: with no reader open the next writer can release every pending page (then nothing is withheld); pending pages are the writer's own frees or older ones some reader may see; "
+         "reader-visible pages are never reusable; nothing below the mark is lost. Tie: real freelist state and Stats after every writer begin/commit/rollback vs the extracted model and vs the decoder.",
+         "The bounded-file-growth corollary is stated through the partition (no id lost); the numeric bound for multi-page runs is not proved.", "DESIGN.md §8 C10"),
  "C12": ("Round-trip theorems between the published layout as a writer specification (LayoutEnc.v) and the independent reader (Layout.v) for integers and checksummed meta pages at any file position; "
          "every file the implementation writes in generated histories is decoded by the extracted reader and compared with the API's report.",
          "Leaf/branch/freelist page round trips are exercised by the correspondence only (theorems so far: integers, meta).", "DESIGN.md §8 C12"),
